@@ -215,6 +215,28 @@ func ZZC10One() {
 		v.Assert(r.fraDigit(L-1) != '0', "C10/fraction-length-keeps-trailing-zero")
 		v.Reach("C10/has-fraction")
 	}
+	// the stored digits are exactly the digits of the exact value (sign, every integer and
+	// fractional position), so that min/max comparisons see the mathematical value
+	v.Assert(num.neg == (r.neg && !r.isZero()), "C10/sign")
+	il := len(num.nat) - num.exp
+	if il < 0 {
+		il = 0
+	}
+	v.Assert(il <= r.intLen(), "C10/integer-part-too-long")
+	for p := 0; p < r.intLen(); p++ {
+		var got byte = '0'
+		if k := len(num.nat) - 1 - num.exp - p; k >= 0 && k < len(num.nat) && p < il {
+			got = num.nat[k]
+		}
+		v.Assert(got == r.intDigit(p), "C10/integer-digit")
+	}
+	for p := 0; p < r.fraLen(); p++ {
+		var got byte = '0'
+		if k := len(num.nat) - num.exp + p; p < num.exp && k >= 0 && k < len(num.nat) {
+			got = num.nat[k]
+		}
+		v.Assert(got == r.fraDigit(p), "C10/fraction-digit")
+	}
 	// classification depends on the value only
 	g := Guess(a)
 	v.Assert(g.IsInteger() == r.isInt(), "C10/integer-classification")
